@@ -6,7 +6,7 @@ from __future__ import annotations
 
 import numpy as np
 
-from mc.core import Report, viol, collect_samples
+from mc.core import Report, viol, collect_samples, Isolated, Sequence
 from mc.histories import explore_getter_orders
 from mc.oracles.s2 import sphere_voronoi
 
@@ -117,6 +117,24 @@ def cases(tier):
     return [{"alg": a, "N": n} for n in Ns for a in ALGS]
 
 
+def _label(c):
+    return f"{c['alg']}_{c['N']}"
+
+
+def seq_cases(tier):
+    """Several grids built in ONE fresh process: every ordered pair of algorithms at the same N, the same grid again after
+    another one, a neighbouring N in between."""
+    algs = ('ico', 'cube3D', 'randomS')
+    out = []
+    for N in ((15, 30) if tier == "quick" else (7, 12, 15, 30, 42, 60)):
+        for a in algs:
+            for b in algs:
+                if a != b:
+                    out.append({"seq": [{"alg": a, "N": N}, {"alg": b, "N": N}, {"alg": a, "N": N}]})
+            out.append({"seq": [{"alg": a, "N": N}, {"alg": a, "N": N + 1}, {"alg": a, "N": N}, {"alg": a, "N": N - 1}]})
+    return out
+
+
 def run(ctx):
     rep = Report(PROPERTY, "exploration")
     cs = cases(ctx.tier)
@@ -124,6 +142,10 @@ def run(ctx):
     ocs = [{"order": True, "alg": a, "N": n, "lo": lo, "hi": lo + 15} for lo in range(0, 150, 15) for a, n in [('ico', 13), ('cube3D', 9), ('randomS', 11)]]
     ores = ctx.pmap(order_case, ocs, chunksize=1, recheck=1)
     for r in res + ores:
+        rep.add_violations(r["violations"])
+    scs = seq_cases(ctx.tier)
+    sres = ctx.pmap(Isolated(Sequence(run_case, _label)), scs, chunksize=1, recheck=1)
+    for r in sres:
         rep.add_violations(r["violations"])
     rep.coverage = {
         "evaluations": sum(r["pairs"] for r in res),
@@ -134,6 +156,7 @@ def run(ctx):
         "samples": collect_samples([f"{c['alg']}_{c['N']}" for c in cs], 6),
         "grids": len(cs), "adjacent_pairs": sum(r["adjacent"] for r in res),
         "getter_order_words": sum(r["words"] for r in ores), "getter_order_calls": sum(r["calls"] for r in ores),
+        "histories_in_one_process": len(scs), "grids_in_histories": sum(r["members"] for r in sres),
         "exhaustive": True, "bound": {"N": "4..130 + 161-163, 257, 258" if ctx.tier == "quick" else "4..330 + 385-387, 641-643, 1000"},
     }
     rep.assumptions = ["tolerance 1e-7 on arcs, angles, areas", "adjacent <=> shared arc longer than 1e-9"]
@@ -143,4 +166,6 @@ def run(ctx):
 def replay(case):
     if case.get("order"):
         return order_case(case)["violations"]
+    if "seq" in case:
+        return Sequence(run_case, _label)(case)["violations"]
     return run_case(case)["violations"]
